@@ -7,7 +7,7 @@ from sim.tape import Policy
 from sim.sched import HarnessError, DONE
 
 BOUNDARY_PROTOCOLS = [4, 5, 47, 107, 108, 210, 315, 335, 338, 339, 340, 384,
-                      385, 390, 391, 393, 404, 477, 498, 573, 578, 706, 707,
+                      385, 388, 393, 404, 477, 498, 573, 578, 706, 707,
                       717, 718, 735, 736, 751, 754, 755, 756, 757]
 
 REAL = ['minecraft.networking.connection (Connection, NetworkingThread, '
@@ -27,8 +27,9 @@ def pick_proto(rng, supported, boundary_weight=0.6):
 
 
 def supported():
-    from sim.ids import supported_protocols
-    return supported_protocols()
+    """Supported protocols minus those whose id tables collide (C06)."""
+    from sim.ids import usable_protocols
+    return usable_protocols()
 
 
 def result_from_world(w, res=None):
@@ -73,7 +74,10 @@ def base_evidence(prop, tier, seed, m, d, rule, extra_assumptions=()):
         },
         'assumptions': [
             'packet ids per protocol version and the version order are taken '
-            'from pyCraft (C06/C07/C08 are not decided here)',
+            'from pyCraft (C06/C07/C08 are not decided here); protocol '
+            'versions whose id tables collide (317, 336, 337, 343, 344, '
+            '389-392 at the pinned commit; recomputed on every run) are '
+            'excluded from sampling',
             'the socket model covers what Linux blocking TCP shows to '
             'pyCraft\'s call set (selftest/socket_conformance.py)',
             'pre-emption granularity is a source line (or bytecode) of '
